@@ -96,8 +96,7 @@ impl TlsRecordsParser {
             return Err(Err::Incomplete(Needed::Unknown));
         }
 
-        // record is not the first
-        debug_assert!(!self.record_defrag_buffer.is_empty());
+        // record is not the first (the buffer may still be empty if the first fragment was)
 
         let record_type = record.hdr.record_type;
         if Some(record_type) != self.current_record_type {
